@@ -7,6 +7,7 @@ use crate::{Error, Result, StorageConfig};
 
 use arrow_array::RecordBatch;
 use arrow_schema::SchemaRef;
+use datafusion::common::DFSchemaRef;
 use datafusion::datasource::empty::EmptyTable;
 use datafusion::datasource::file_format::parquet::ParquetFormat;
 use datafusion::datasource::listing::{
@@ -14,7 +15,10 @@ use datafusion::datasource::listing::{
 };
 use datafusion::execution::runtime_env::RuntimeEnvBuilder;
 use datafusion::execution::SessionStateBuilder;
-use datafusion::logical_expr::{Expr, LogicalPlan, Operator};
+use datafusion::logical_expr::execution_props::ExecutionProps;
+use datafusion::logical_expr::simplify::SimplifyContext;
+use datafusion::logical_expr::{Distinct, Expr, LogicalPlan, Operator};
+use datafusion::optimizer::simplify_expressions::ExprSimplifier;
 use datafusion::prelude::*;
 use datafusion::scalar::ScalarValue;
 use object_store::ObjectStore;
@@ -23,6 +27,62 @@ use std::collections::{BTreeSet, HashSet};
 use std::future::Future;
 use std::sync::Arc;
 use tokio::sync::Mutex;
+
+/// Closed interval of timestamps (nanoseconds); `i64::MIN` / `i64::MAX` stand for "unbounded",
+/// `start > end` for the empty window
+#[derive(Debug, Clone, Copy, PartialEq, Eq)]
+struct TimeWindow {
+    start: i64,
+    end: i64,
+}
+
+impl TimeWindow {
+    const ALL: Self = Self {
+        start: i64::MIN,
+        end: i64::MAX,
+    };
+    const EMPTY: Self = Self {
+        start: i64::MAX,
+        end: i64::MIN,
+    };
+
+    fn point(value: i64) -> Self {
+        Self {
+            start: value,
+            end: value,
+        }
+    }
+
+    fn is_empty(&self) -> bool {
+        self.start > self.end
+    }
+
+    fn intersect(self, other: Self) -> Self {
+        let both = Self {
+            start: self.start.max(other.start),
+            end: self.end.min(other.end),
+        };
+        if both.is_empty() {
+            Self::EMPTY
+        } else {
+            both
+        }
+    }
+
+    /// Smallest window that contains both
+    fn hull(self, other: Self) -> Self {
+        if self.is_empty() {
+            other
+        } else if other.is_empty() {
+            self
+        } else {
+            Self {
+                start: self.start.min(other.start),
+                end: self.end.max(other.end),
+            }
+        }
+    }
+}
 
 /// Query engine powered by DataFusion
 #[derive(Clone)]
@@ -428,123 +488,238 @@ impl QueryEngine {
     }
 
     /// Extract time range from a SQL query by analyzing the logical plan
+    ///
+    /// The range covers every row that can contribute to the result: parts of the
+    /// statement that are not understood widen it, they never narrow it. Only a
+    /// statement without any predicate on the time column gets the default window
+    /// (the last hour). An unsatisfiable predicate yields an inverted (empty) range.
     pub async fn extract_time_range(&self, sql: &str) -> Result<TimeRange> {
         let df = self.plan_read_only(sql).await?;
         let plan = df.logical_plan();
 
-        // Extract time predicates from the plan
-        let mut min_time: Option<i64> = None;
-        let mut max_time: Option<i64> = None;
+        let now = chrono::Utc::now();
+        if !Self::plan_filters_on_time(plan) {
+            // Default to last hour if the query does not constrain the time column
+            let now = now.timestamp_nanos_opt().unwrap_or(0);
+            return Ok(TimeRange::new(now - 3_600_000_000_000, now));
+        }
 
-        Self::extract_time_bounds(plan, &mut min_time, &mut max_time);
-
-        // Default to last hour if no time bounds found
-        let now = chrono::Utc::now().timestamp_nanos_opt().unwrap_or(0);
-        let hour_ago = now - 3_600_000_000_000;
-
-        Ok(TimeRange::new(
-            min_time.unwrap_or(hour_ago),
-            max_time.unwrap_or(now),
-        ))
+        // `now()` is folded with the same instant the default window uses
+        let props = ExecutionProps::new().with_query_execution_start_time(now);
+        let window = Self::plan_time_window(plan, &props);
+        Ok(TimeRange::new(window.start, window.end))
     }
 
-    /// Recursively extract time bounds from a logical plan
-    fn extract_time_bounds(
-        plan: &LogicalPlan,
-        min_time: &mut Option<i64>,
-        max_time: &mut Option<i64>,
-    ) {
+    fn is_time_column_name(name: &str) -> bool {
+        name == "timestamp" || name == "time"
+    }
+
+    fn is_time_column(expr: &Expr) -> bool {
+        matches!(expr, Expr::Column(col) if Self::is_time_column_name(&col.name))
+    }
+
+    fn expr_mentions_time(expr: &Expr) -> bool {
+        expr.column_refs()
+            .iter()
+            .any(|col| Self::is_time_column_name(&col.name))
+    }
+
+    /// True if any filter of the plan refers to the time column
+    fn plan_filters_on_time(plan: &LogicalPlan) -> bool {
+        if let LogicalPlan::Filter(filter) = plan {
+            if Self::expr_mentions_time(&filter.predicate) {
+                return true;
+            }
+        }
+        plan.inputs()
+            .into_iter()
+            .any(|input| Self::plan_filters_on_time(input))
+    }
+
+    /// The window that contains the timestamp of every scanned row that can contribute
+    /// to the result of `plan`
+    fn plan_time_window(plan: &LogicalPlan, props: &ExecutionProps) -> TimeWindow {
         match plan {
             LogicalPlan::Filter(filter) => {
-                Self::extract_time_from_expr(&filter.predicate, min_time, max_time);
-                Self::extract_time_bounds(&filter.input, min_time, max_time);
+                let below = Self::plan_time_window(&filter.input, props);
+                if Self::expr_mentions_time(&filter.predicate)
+                    && Self::filter_applies_to_scanned_rows(&filter.input)
+                {
+                    let own = Self::predicate_time_window(
+                        &filter.predicate,
+                        filter.input.schema(),
+                        props,
+                    );
+                    own.intersect(below)
+                } else {
+                    below
+                }
             }
-            LogicalPlan::Projection(proj) => {
-                Self::extract_time_bounds(&proj.input, min_time, max_time);
+            _ => {
+                let inputs = plan.inputs();
+                if inputs.is_empty() {
+                    return TimeWindow::ALL;
+                }
+                // one input: its window; several (joins, set operations): all of them
+                inputs.into_iter().fold(TimeWindow::EMPTY, |acc, input| {
+                    acc.hull(Self::plan_time_window(input, props))
+                })
             }
-            LogicalPlan::Sort(sort) => {
-                Self::extract_time_bounds(&sort.input, min_time, max_time);
-            }
-            LogicalPlan::Limit(limit) => {
-                Self::extract_time_bounds(&limit.input, min_time, max_time);
-            }
-            LogicalPlan::Aggregate(agg) => {
-                Self::extract_time_bounds(&agg.input, min_time, max_time);
-            }
-            _ => {}
         }
     }
 
-    /// Extract time bounds from a filter expression
-    fn extract_time_from_expr(expr: &Expr, min_time: &mut Option<i64>, max_time: &mut Option<i64>) {
+    /// True if a filter on top of `plan` may be applied to the scanned rows instead: every
+    /// column name still denotes the base-table column, and nothing in between (LIMIT,
+    /// window functions, joins, ...) lets rows that fail the filter change what passes it.
+    fn filter_applies_to_scanned_rows(plan: &LogicalPlan) -> bool {
+        match plan {
+            LogicalPlan::TableScan(_) => true,
+            LogicalPlan::Filter(filter) => Self::filter_applies_to_scanned_rows(&filter.input),
+            LogicalPlan::SubqueryAlias(alias) => Self::filter_applies_to_scanned_rows(&alias.input),
+            LogicalPlan::Sort(sort) => {
+                sort.fetch.is_none() && Self::filter_applies_to_scanned_rows(&sort.input)
+            }
+            LogicalPlan::Distinct(Distinct::All(input)) => {
+                Self::filter_applies_to_scanned_rows(input)
+            }
+            LogicalPlan::Projection(_) | LogicalPlan::Aggregate(_) => {
+                Self::plan_preserves_column_names(plan)
+                    && plan
+                        .inputs()
+                        .into_iter()
+                        .all(|input| Self::filter_applies_to_scanned_rows(input))
+            }
+            _ => false,
+        }
+    }
+
+    /// The window a filter predicate confines the time column to
+    fn predicate_time_window(
+        predicate: &Expr,
+        schema: &DFSchemaRef,
+        props: &ExecutionProps,
+    ) -> TimeWindow {
+        // Let DataFusion coerce and constant-fold the predicate the way it does before
+        // executing it, so that `TIMESTAMP '...'`, `now() - interval '1 hour'`,
+        // `to_timestamp_nanos(...)` and the like are literals of the column's type.
+        let simplifier =
+            ExprSimplifier::new(SimplifyContext::new(props).with_schema(schema.clone()));
+        let folded = simplifier
+            .coerce(predicate.clone(), schema)
+            .and_then(|expr| simplifier.simplify(expr));
+        match folded {
+            Ok(expr) => Self::expr_time_window(&expr, false),
+            Err(_) => TimeWindow::ALL,
+        }
+    }
+
+    /// Interval analysis of a boolean expression (of its negation if `negated`): the
+    /// result contains every timestamp for which the expression can be true.
+    fn expr_time_window(expr: &Expr, negated: bool) -> TimeWindow {
         match expr {
             Expr::BinaryExpr(binary) => {
-                // Check if this is a timestamp comparison
-                if let Expr::Column(col) = binary.left.as_ref() {
-                    if col.name == "timestamp" || col.name == "time" {
-                        if let Some(value) = Self::extract_timestamp_value(&binary.right) {
-                            match binary.op {
-                                Operator::Gt | Operator::GtEq => {
-                                    *min_time = Some(min_time.unwrap_or(i64::MAX).min(value));
-                                }
-                                Operator::Lt | Operator::LtEq => {
-                                    *max_time = Some(max_time.unwrap_or(i64::MIN).max(value));
-                                }
-                                Operator::Eq => {
-                                    *min_time = Some(value);
-                                    *max_time = Some(value);
-                                }
-                                _ => {}
-                            }
-                        }
-                    }
-                }
-                // Handle reversed comparison (literal on left)
-                if let Expr::Column(col) = binary.right.as_ref() {
-                    if col.name == "timestamp" || col.name == "time" {
-                        if let Some(value) = Self::extract_timestamp_value(&binary.left) {
-                            match binary.op {
-                                Operator::Lt | Operator::LtEq => {
-                                    *min_time = Some(min_time.unwrap_or(i64::MAX).min(value));
-                                }
-                                Operator::Gt | Operator::GtEq => {
-                                    *max_time = Some(max_time.unwrap_or(i64::MIN).max(value));
-                                }
-                                _ => {}
-                            }
-                        }
-                    }
-                }
-                // Recurse into AND/OR expressions
-                if matches!(binary.op, Operator::And | Operator::Or) {
-                    Self::extract_time_from_expr(&binary.left, min_time, max_time);
-                    Self::extract_time_from_expr(&binary.right, min_time, max_time);
+                // De Morgan: a negated conjunction is a disjunction of negations and vice versa
+                let conjunction = match binary.op {
+                    Operator::And => !negated,
+                    Operator::Or => negated,
+                    _ => return Self::comparison_time_window(binary, negated),
+                };
+                let left = Self::expr_time_window(&binary.left, negated);
+                let right = Self::expr_time_window(&binary.right, negated);
+                if conjunction {
+                    left.intersect(right)
+                } else {
+                    left.hull(right)
                 }
             }
-            Expr::Between(between) => {
-                if let Expr::Column(col) = between.expr.as_ref() {
-                    if col.name == "timestamp" || col.name == "time" {
-                        if let Some(low) = Self::extract_timestamp_value(&between.low) {
-                            *min_time = Some(min_time.unwrap_or(i64::MAX).min(low));
-                        }
-                        if let Some(high) = Self::extract_timestamp_value(&between.high) {
-                            *max_time = Some(max_time.unwrap_or(i64::MIN).max(high));
-                        }
-                    }
+            Expr::Not(inner) => Self::expr_time_window(inner, !negated),
+            Expr::Between(between) if Self::is_time_column(&between.expr) => {
+                if between.negated != negated {
+                    // outside of a range: unbounded on both sides
+                    return TimeWindow::ALL;
+                }
+                TimeWindow {
+                    start: Self::extract_timestamp_value(&between.low).unwrap_or(i64::MIN),
+                    end: Self::extract_timestamp_value(&between.high).unwrap_or(i64::MAX),
                 }
             }
-            _ => {}
+            Expr::InList(in_list) if Self::is_time_column(&in_list.expr) => {
+                if in_list.negated != negated {
+                    return TimeWindow::ALL;
+                }
+                in_list.list.iter().fold(TimeWindow::EMPTY, |acc, item| {
+                    acc.hull(match Self::extract_timestamp_value(item) {
+                        Some(value) => TimeWindow::point(value),
+                        None => TimeWindow::ALL,
+                    })
+                })
+            }
+            Expr::Literal(ScalarValue::Boolean(Some(value))) => {
+                if *value != negated {
+                    TimeWindow::ALL
+                } else {
+                    TimeWindow::EMPTY
+                }
+            }
+            _ => TimeWindow::ALL,
         }
     }
 
-    /// Extract timestamp value from an expression
+    /// Window of `time <op> literal` / `literal <op> time`; anything else is unbounded
+    fn comparison_time_window(
+        binary: &datafusion::logical_expr::BinaryExpr,
+        negated: bool,
+    ) -> TimeWindow {
+        let (value, op) = if Self::is_time_column(&binary.left) {
+            (
+                Self::extract_timestamp_value(&binary.right),
+                Some(binary.op),
+            )
+        } else if Self::is_time_column(&binary.right) {
+            (
+                Self::extract_timestamp_value(&binary.left),
+                binary.op.swap(),
+            )
+        } else {
+            (None, None)
+        };
+        let op = if negated {
+            op.and_then(|op| op.negate())
+        } else {
+            op
+        };
+        match (value, op) {
+            (Some(value), Some(Operator::Eq)) => TimeWindow::point(value),
+            (Some(value), Some(Operator::GtEq)) => TimeWindow {
+                start: value,
+                end: i64::MAX,
+            },
+            (Some(value), Some(Operator::Gt)) => TimeWindow {
+                start: value.saturating_add(1),
+                end: i64::MAX,
+            },
+            (Some(value), Some(Operator::LtEq)) => TimeWindow {
+                start: i64::MIN,
+                end: value,
+            },
+            (Some(value), Some(Operator::Lt)) => TimeWindow {
+                start: i64::MIN,
+                end: value.saturating_sub(1),
+            },
+            _ => TimeWindow::ALL,
+        }
+    }
+
+    /// Extract timestamp value (nanoseconds) from a literal expression
     fn extract_timestamp_value(expr: &Expr) -> Option<i64> {
         match expr {
             Expr::Literal(ScalarValue::Int64(Some(v))) => Some(*v),
             Expr::Literal(ScalarValue::TimestampNanosecond(Some(v), _)) => Some(*v),
-            Expr::Literal(ScalarValue::TimestampMicrosecond(Some(v), _)) => Some(*v * 1000),
-            Expr::Literal(ScalarValue::TimestampMillisecond(Some(v), _)) => Some(*v * 1_000_000),
-            Expr::Literal(ScalarValue::TimestampSecond(Some(v), _)) => Some(*v * 1_000_000_000),
+            Expr::Literal(ScalarValue::TimestampMicrosecond(Some(v), _)) => v.checked_mul(1000),
+            Expr::Literal(ScalarValue::TimestampMillisecond(Some(v), _)) => {
+                v.checked_mul(1_000_000)
+            }
+            Expr::Literal(ScalarValue::TimestampSecond(Some(v), _)) => v.checked_mul(1_000_000_000),
             _ => None,
         }
     }
